@@ -370,6 +370,36 @@ def r3_no_handout(ctx):
                          "the documented get-edit-fit workflow edits the "
                          "stored settings in place and the next fit_model "
                          "call sees no change")
+        # ... and a public attribute never holds the stored object itself
+        for st in walk_no_nested(f, False):
+            if not (isinstance(st, ast.Assign) and len(st.targets) == 1
+                    and isinstance(st.targets[0], ast.Attribute)
+                    and isinstance(st.targets[0].value, ast.Name)
+                    and st.targets[0].value.id == "self"
+                    and not st.targets[0].attr.startswith("_")):
+                continue
+            v = st.value
+            key = None
+            if isinstance(v, ast.Name) and v.id in amap:
+                key = amap[v.id].split(":")[-1]
+            elif isinstance(v, ast.Subscript) and facts.is_fp_receiver(
+                    v.value, al_fp) and const_str(v.slice) in dflt:
+                key = const_str(v.slice)
+            elif isinstance(v, ast.Call) and isinstance(
+                    v.func, ast.Attribute) and v.func.attr == "get" \
+                    and v.args and const_str(v.args[0]) in dflt and \
+                    facts.is_fp_receiver(v.func.value, al_fp):
+                key = const_str(v.args[0])
+            if key is None:
+                continue
+            n += 1
+            ctx.fail(st, f"self.{st.targets[0].attr} is the stored setting "
+                     f"'{key}'",
+                     f"{q} binds the public attribute "
+                     f"`{st.targets[0].attr}` to the stored '{key}' object "
+                     "itself: an in-place edit of the attribute edits the "
+                     "record that change detection compares with, so the "
+                     "edit is not noticed and nothing is recomputed")
         ctx.analysed(f)
     fn = ind.func("Indentation.get_initial_fit_parameters")
     rets = [r for r in walk_no_nested(fn, False) if isinstance(r, ast.Return)]
@@ -462,6 +492,57 @@ def r7_edits_change_the_hash(ctx):
     r1_coverage(ctx)
 
 
+def r8_uniform_result_ownership(ctx):
+    """A function that hands back a container derived from a by-value
+    argument either always returns a new object or always the argument:
+    one that copies on some return paths and returns the caller's own
+    object on others gives results that share storage with the argument
+    only for particular values (e.g. an already sorted list) - an edit of
+    the result then edits the argument, and the next call with it differs
+    from a call with a fresh equal-valued object."""
+    n = 0
+    for m, q, f in ctx.repo.all_funcs():
+        if _is_private_fn(q):
+            continue
+        ps = [p for p in func_params(f) if p in BY_VALUE]
+        if not ps:
+            continue
+        al = effects.alias_map(f, {p: f"param:{p}" for p in ps})
+        rets = [r for r in walk_no_nested(f, False)
+                if isinstance(r, ast.Return) and r.value is not None]
+        if len(rets) < 2:
+            continue
+        kinds = {}
+        for r in rets:
+            vals = r.value.elts if isinstance(r.value, ast.Tuple) else [
+                r.value]
+            for i, v in enumerate(vals):
+                if not isinstance(v, ast.Name) or v.id not in al:
+                    continue
+                src = al[v.id]
+                root = src.split(":")[-1]
+                if root not in ps:
+                    continue
+                k = "copy" if src.startswith("shallowof:") else (
+                    None if src.startswith("holds:") else "argument")
+                if k:
+                    kinds.setdefault((i, root), {}).setdefault(k, r)
+        for (i, root), d in kinds.items():
+            n += 1
+            ctx.check(len(d) == 1, d.get("argument") or f,
+                      f"{m.name}.{q}: result derived from `{root}` is "
+                      f"always {'/'.join(sorted(d))}",
+                      f"{m.relpath}:{q} returns a copy of `{root}` on one "
+                      f"path (line {d['copy'].lineno if 'copy' in d else '?'}"
+                      f") and the caller's own object on another (line "
+                      f"{d['argument'].lineno if 'argument' in d else '?'}):"
+                      " for those inputs the result shares storage with "
+                      "the argument, so editing the result edits the "
+                      "argument handed in")
+    ctx.note(f"{n} result(s) derived from by-value arguments with several "
+             "return paths")
+
+
 RULES = [
     ("C10-R1", "no in-place mutation of by-value arguments", r1_no_mutation),
     ("C10-R2", "no retention of caller objects by reference",
@@ -475,4 +556,6 @@ RULES = [
      r6_poc_leaves_force_alone),
     ("C10-R7", "every setting enters the fit hash by its full value (the "
      "rating cache is keyed on it)", r7_edits_change_the_hash),
+    ("C10-R8", "a result derived from a by-value argument is a new object "
+     "on every return path or on none", r8_uniform_result_ownership),
 ]
